@@ -1097,4 +1097,9 @@ func runC02R5(c *Ctx) {
 			"Serve waits for the packet manager to finish sending",
 			"Serve returns without waiting for the packet manager's controller and dispatcher goroutines: responses still queued are written after Serve returned, or never")
 	}
+
+	// ---------- R6 no lock is leaked on the request path ----------
+	// a request that returns with the handle-table (or any server) lock held is itself answered, but every later
+	// request needing the lock is not
+	checkLockBalance(c, "R6", func(fn *ssa.Function) bool { return isServerSide(fn) && outermost(fn).Package() == p.Sftp }, 12)
 }
